@@ -235,7 +235,7 @@ impl Visitor for AnnotationFinder<'_> {
 /// Render `ty` as a type annotation, or `None` if there's no useful
 /// annotation to add (an unknown `Any` type, or an unrecoverable type
 /// error).
-fn annotation_src(ty: &Type) -> Option<String> {
+pub(crate) fn annotation_src(ty: &Type) -> Option<String> {
     match ty {
         Type::Error {
             inferred_type: Some(inferred_type),
